@@ -54,6 +54,8 @@ func denyKind(err error) string {
 	switch {
 	case strings.HasPrefix(m, "user must be authenticated"):
 		return "unauthenticated"
+	case strings.HasPrefix(m, "not authorised: user "):
+		return "disabled"
 	case strings.HasPrefix(m, "unauthorized access to the following categories"):
 		return "categories"
 	case strings.HasPrefix(m, "not authorised to run"):
@@ -612,6 +614,28 @@ func RunAclA(w *bufio.Writer, seed int64, tier string, replay string) error {
 			op(0, "acl", "deluser", "alice"), op(2, "auth", "alice", "p1"), op(0, "acl", "users")); err != nil {
 			return err
 		}
+	}
+	// regressions of repaired defects: several keys of which one is outside the patterns, an empty read-pattern
+	// list on an edited user, a user switched off under an open connection, SETUSER without a name / with an empty token
+	for _, keyRules := range [][]string{{"%R~a*", "%W~a*"}, {"%R~a*", "%W~*"}, {"%R~*", "%W~a*"}, {"%W~b*"}, {"%R~b*"}, {"~a*", "~b*"}} {
+		if err := script(op(0, "auth", "pw"), op(0, "acl", "setuser", "alice", "on", ">p1", "+@all", "allKeys"), op(1, "auth", "alice", "p1"),
+			op(0, "acl", "setuser", "alice", "resetkeys"), op(1, "get", "a1"),
+			op(0, append([]string{"acl", "setuser", "alice"}, keyRules...)...),
+			op(1, "get", "a1"), op(1, "get", "b1"), op(1, "mget", "a1", "b1"), op(1, "mget", "b1", "a1"), op(1, "mget", "a1", "a1"), op(1, "set", "a1", "v"), op(1, "set", "b1", "v"),
+			op(1, "mset", "a1", "1", "b1", "2"), op(1, "mset", "b1", "1", "a1", "2"), op(1, "del", "a1", "b1"), op(1, "rename", "a1", "b1"), op(1, "sunionstore", "a1", "b1", "c1"),
+			op(1, "lmove", "a1", "b1", "left", "left"), op(1, "ttl", "c1")); err != nil {
+			return err
+		}
+	}
+	if err := script(op(0, "auth", "pw"), op(0, "acl", "setuser", "alice", "on", ">p1", "+@all", "allKeys"), op(1, "auth", "alice", "p1"), op(1, "get", "a1"),
+		op(0, "acl", "setuser", "alice", ">p2", "off"), op(1, "get", "a1"), op(1, "set", "a1", "v"), op(1, "acl", "whoami"), op(1, "ping"), op(1, "auth", "alice", "p1"),
+		op(0, "acl", "setuser", "alice", "on"), op(1, "get", "a1"), op(0, "acl", "setuser", "default", "off"), op(0, "get", "a1"), op(2, "auth", "pw"), op(2, "auth", "alice", "p2"), op(2, "get", "a1")); err != nil {
+		return err
+	}
+	if err := script(op(0, "auth", "pw"), op(0, "acl", "setuser"), op(0, "ACL", "SETUSER"), op(0, "acl", "setuser", "alice", ""), op(0, "acl", "setuser", ""),
+		op(0, "acl", "setuser", "bob", "on", "", ">p1"), op(0, "acl", "setuser", "alice", "on", ">p1"), op(0, "acl", "setuser", "alice", "off", ""), op(0, "acl", "users"),
+		op(1, "auth", "alice", "p1"), op(1, "acl", "whoami")); err != nil {
+		return err
 	}
 	n, length := 250, 40
 	if tier == "thorough" {
